@@ -224,7 +224,12 @@ impl Env {
 
     fn serve_get(&self, v: usize, s: usize) -> Response {
         let o = self.chunk_obj(v, s);
-        Response::new(200, chunk_bytes(v, s).as_ref().clone()).header("Last-Modified", &http_date(o.modified_ms)).header("Content-Type", "binary/octet-stream")
+        let r = Response::new(200, chunk_bytes(v, s).as_ref().clone()).header("Content-Type", "binary/octet-stream");
+        if self.root.regime == 2 {
+            r // objects without a Last-Modified header
+        } else {
+            r.header("Last-Modified", &http_date(o.modified_ms))
+        }
     }
 
     /// volumes whose key "KDMX/<v>/..." starts with the given listing prefix (true string-prefix semantics)
@@ -492,7 +497,11 @@ impl Observation {
 /// One execution of the real poller for (root, choice prefix).
 pub fn execute(sim: &Sim, root: &Root, choices: Choices) -> Observation {
     let rt = runtime();
-    let base_ms = if root.regime == 0 { 1_723_552_410_000 - 700_000 } else { chrono::Utc::now().timestamp_millis() + 5_000 - root.s0 as i64 * 10_000 };
+    let base_ms = match root.regime {
+        0 | 2 => 1_723_552_410_000 - 700_000,
+        3 => chrono::Utc::now().timestamp_millis() + 3_600_000, // an hour in the future
+        _ => chrono::Utc::now().timestamp_millis() + 5_000 - root.s0 as i64 * 10_000,
+    };
     let (tx, rx) = channel::<(ChunkIdentifier, Chunk<'static>)>();
     let (stop_tx, stop_rx) = channel::<bool>();
     let (stats_tx, stats_rx) = channel::<PollStats>();
@@ -656,7 +665,7 @@ pub fn judge(ctx: &Ctx, root: &Root, o: &Observation, st: &mut Stats) -> String 
         expected_prev = Some((d.volume, seq));
     }
     // labels: key and upload time (regime 0 has a fixed base)
-    if root.regime == 0 {
+    if root.regime == 0 || root.regime == 2 {
         let base_ms = 1_723_552_410_000 - 700_000;
         for d in &o.deliveries {
             let seq = parse_seq(&d.name).unwrap_or(0);
@@ -664,8 +673,9 @@ pub fn judge(ctx: &Ctx, root: &Root, o: &Observation, st: &mut Stats) -> String 
             if d.name != exp_name {
                 ctx.fail("poll:delivered_label_is_not_the_object_key", || format!("{} vs {}", d.name, exp_name), wit);
             }
-            if d.time_ms != Some(upload_ms(root, base_ms, d.volume, seq)) {
-                ctx.fail("poll:delivered_upload_time_wrong", || format!("{}: {:?} vs {}", d.name, d.time_ms, upload_ms(root, base_ms, d.volume, seq)), wit);
+            let exp_time = if root.regime == 2 { None } else { Some(upload_ms(root, base_ms, d.volume, seq)) };
+            if d.time_ms != exp_time {
+                ctx.fail("poll:delivered_upload_time_wrong", || format!("{}: {:?} vs {:?}", d.name, d.time_ms, exp_time), wit);
             }
         }
     }
@@ -753,6 +763,12 @@ pub fn roots(thorough: bool) -> Vec<Root> {
     // long horizon: twelve deliveries exercise the timing-statistics path (10 chunks) with stats on
     out.push(Root { v0: 998, s0: 50, deliveries_horizon: 14, with_stats: true, bound: 1, ..base.clone() });
     out.push(Root { v0: 999, s0: 48, deliveries_horizon: 14, with_stats: true, regime: 1, bound: 0, ..base.clone() });
+    // other timestamp regimes: objects without Last-Modified; upload times an hour in the future
+    for (v0, s0) in [(500usize, 30usize), (999, 54), (1, 2)] {
+        for regime in [2u8, 3] {
+            out.push(Root { v0, s0, regime, bound: 1, with_stats: regime == 3, deliveries_horizon: if regime == 2 { 14 } else { 6 }, ..base.clone() });
+        }
+    }
     // long fault-free (and single-fault) runs inside one volume, with and without the statistics
     // channel: the timing window fills (11th sample of one key), statistics are flushed every 11
     // chunks, counters grow past ten
@@ -824,7 +840,7 @@ fn run_roots(ctx: &'static Ctx, sim: &Sim, list: &[(usize, Root)], st: &mut Stat
         // determinism: replay the last explored schedule of this root twice
         let a = execute(sim, root, Choices::new(vec![], vec![]));
         let b = execute(sim, root, Choices::new(vec![], vec![]));
-        if root.regime == 0 {
+        if root.regime == 0 || root.regime == 2 {
             let f0 = first_fp.clone().unwrap_or_default();
             if a.fingerprint() != b.fingerprint() || a.fingerprint() != f0 {
                 // the harness is deterministic for regime 0 (the unchanged tree replays identically for
